@@ -70,7 +70,11 @@ CLAIMS = {
                 "commit d711748); emergence angles below 1 degree are replaced by exactly 1 degree and nothing uses "
                 "the raw angle; 0.1 km steps up to 65 km and the stepper call matches its C++ signature by role; the "
                 "attenuation columns are remaining (reverse) cumulative sums and the shower age the traversed one; "
-                "the contraction pattern of the Hillas angular integration; early exits return exact zeros. It does "
+                "the contraction pattern of the Hillas angular integration; early exits return exact zeros; the formulas "
+                "of the shower model (Greisen profile and age, Hillas track length / angular scale, Cherenkov threshold "
+                "and angle, yield product) and the validity filter in polynomial normal form against referenced "
+                "formulas; the atmosphere parameterisations (grammage, density = -1e-5 dX/dz, ozone column) cell by "
+                "cell over the altitude bands; the ring limit floor(D tan theta_c) + 1 of the angular integration. It does "
                 "NOT decide the 10 % / 0.5 % / 1 % agreement with a double-precision evaluation or finiteness.",
         "technique": "numerical-stability lint and structural obligations on the value-flow graph of the kernel "
                      "closure (pattern rules over resolved calls, effect-free), cross-check against the C++ signature",
@@ -101,7 +105,10 @@ CLAIMS = {
                 "radians (unit + kind agreement, also that both geometry modes deliver radians), converts the map "
                 "pressure only through the standard-atmosphere function; in the kernel the cloud top acts only through "
                 "the early-exit comparison on the penultimate segment (exact zeros) and the strict per-segment mask "
-                "stored with 0, with -inf as default, and every consumer reads the masked yield; shipped maps are "
+                "stored with 0, with -inf as default, and every consumer reads the masked yield; the coordinate arrays the "
+                "optical stage hands to the kernel batch select the same events as its angle / altitude / energy "
+                "arrays and are the stage's own coordinates (the cloud top is looked up at the event's own "
+                "location); shipped maps are "
                 "audited (data audit). It does NOT decide cell containment at cell edges/poles.",
         "technique": "value-flow graph + must/must-not dependence with flow kinds, unit inference, effect ordering; data audit",
     },
@@ -135,7 +142,9 @@ CLAIMS = {
                 "index-dependent division in the three spectrum helpers is dominated by a guard excluding index == 1; "
                 "spec_norm x sum_spec_weights == 1 as a polynomial identity for every variant and guard branch; the "
                 "uniform variate is on [0, 1(+1 ulp)] with one draw per event; the closed forms of the statement "
-                "(general and index-1 branches) modulo algebra. It does NOT decide rounding at the upper bound or "
+                "(general and index-1 branches) modulo algebra; the spectrum handed to the three helpers is the one "
+                "configured when the sample is drawn (looked up during the call, under the history 'section replaced "
+                "after construction', which the command line options perform). It does NOT decide rounding at the upper bound or "
                 "distributional exactness beyond the closed form.",
         "technique": "value-flow graph with path merging + guard dominance over merge conditions, polynomial normal "
                      "form, interval analysis",
@@ -169,7 +178,9 @@ CLAIMS = {
                 "file-output effect below compute() is that guarded write (nothing else writes, removes or renames); in "
                 "every storing-wrapper invocation the stage runs once and has returned before its values are stored, "
                 "all values are stored and returned unchanged; the table owns its columns (a column added with "
-                "copy=False is never modified afterwards); no handler swallows a stage failure. It does NOT decide "
+                "copy=False is never modified afterwards); a stage that calls the writer itself does so as its last act "
+                "(nothing in its result and no effect is produced after the writer returned); no handler swallows a "
+                "stage failure. The writer is identified by what it does (the class holding the table mutations). It does NOT decide "
                 "atomicity of a single Table.write.",
         "technique": "effect ordering, ownership and control dependence on the inlined graph of compute()",
     },
@@ -187,7 +198,9 @@ CLAIMS = {
     },
     "C16": {
         "text": "Decides writer/reader agreement of the header schema: the header is the whole flattened model_dump() "
-                "under 'HIERARCH Config' with separator ' '; the flattener is decided from the effects of its generator "
+                "under 'HIERARCH Config' with separator ' ' (however the meta dictionary is assembled), a per-value filter on "
+                "the way into the header leaves every value a card can hold (None, bool, int, str, finite float) "
+                "unchanged; the flattener is decided from the effects of its generator "
                 "body (every non-mapping item emitted under parent+sep+key, every mapping recursed with the same "
                 "separator, nothing skipped); a missing key is detected by a presence test, not by truthiness; every key config_from_fits reads "
                 "exists in the writer's key set for every union variant that can reach the read (guards on the "
@@ -222,7 +235,9 @@ CLAIMS = {
                 "is spelled differently, algebraically equal in every cell of the mask partition (then rounding-level "
                 "agreement is reported as not decided); one layer-index term for all layer "
                 "tables, isothermal branch by lapse rate == 0, inclusive layer selection (boundary in the upper layer) "
-                "in both directions over all layers in order (the index array read as a decision list), zero pressure <-> "
+                "in both directions over all layers in order (the index array read as a decision list, or as a count / "
+                "searchsorted on the monotone table), no narrowing cast or rounding on the value path (the stated "
+                "1e-6 needs double precision), zero pressure <-> "
                 "infinite altitude with nothing left undefined in any cell; literal-table sanity "
                 "(equal lengths, monotone heights/pressures, sentinel) and equality with the 1976 US Standard "
                 "Atmosphere reference values. It does NOT decide the 1e-6 round trip or behaviour next to boundaries.",
